@@ -50,6 +50,12 @@ inductive HasHt : Code → Nat → Nat → Prop
       HasHt body (h - j.popFall) (h - j.popJump) → HasHt (.fwd j body) h (h - j.popJump)
   | ifElse {j : JKind} {a b h k} : j.need ≤ h → j.popJump ≤ j.need → j.popFall ≤ j.need →
       HasHt a (h - j.popFall) k → HasHt b (h - j.popJump) k → HasHt (.ifElse j a b) h k
+  -- loops: the entry height is the loop invariant (every back edge arrives with it)
+  | loop {j : JKind} {pre body h k1} : HasHt pre h k1 → j.need ≤ k1 → j.popJump ≤ j.need → j.popFall ≤ j.need →
+      HasHt body (k1 - j.popFall) h → HasHt (.loop j pre body) h (k1 - j.popJump)
+  | forever {body h k} : HasHt body h h → HasHt (.forever body) h k
+  | doLoop {j : JKind} {body h k1} : HasHt body h k1 → j.need ≤ k1 → j.popJump ≤ j.need → j.popFall ≤ j.need →
+      k1 - j.popJump = h → HasHt (.doLoop j body) h (k1 - j.popFall)
 
 theorem HasHt.conv {c h k k'} (hh : HasHt c h k) (e : k = k') : HasHt c h k' := e ▸ hh
 
@@ -63,6 +69,9 @@ theorem height_dead (c : Code) : c.height .dead = some .dead := by
   | seq a b iha ihb => simp [Code.height, iha, ihb]
   | fwd j body _ => rfl
   | ifElse j a b _ _ => rfl
+  | loop j pre body _ _ => rfl
+  | forever body _ => rfl
+  | doLoop j body _ => rfl
 
 theorem join_post {x y : Ht} {k : Nat} (hx : x = .dead ∨ x = .live k) (hy : y = .dead ∨ y = .live k) :
     Post (x.join y) k := by
@@ -96,5 +105,19 @@ theorem HasHt.sound {c h k} (hh : HasHt c h k) : Post (c.height (.live h)) k := 
     have := join_post hx' hy'
     simp only [Code.height, h1, h2, h3, and_self, if_true, hx, hy, Option.bind_some]
     exact this
+  | @loop j pre body h k1 _ h1 h2 h3 _ iha ihb =>
+    rcases iha with ha | ha
+    · left; simp [Code.height, ha]
+    · rcases ihb with hb | hb
+      · right; simp [Code.height, ha, hb, h1, h2, h3]
+      · right; simp [Code.height, ha, hb, h1, h2, h3]
+  | @forever body h k _ ih =>
+    rcases ih with hb | hb
+    · left; simp [Code.height, hb]
+    · left; simp [Code.height, hb]
+  | @doLoop j body h k1 _ h1 h2 h3 h4 ih =>
+    rcases ih with hb | hb
+    · left; simp [Code.height, hb]
+    · right; simp [Code.height, hb, h1, h2, h3, h4]
 
 end GojaModel.C01
